@@ -4,9 +4,10 @@
    parent with the relative path and the new generation number, manifest before chain), the order in which `load`
    lists histories (every nested history before the history that contains it, root last) and that a run's write
    operations come grouped by history in that order -- so a child's manifest and chain are in place before its parent's
-   manifest is written.  The commit set (which histories write) for nested layouts and -sf is carried by the
-   lockstep correspondence. *)
-From MHL Require Import Model.Commands Proofs.BaseFacts Proofs.RouteFacts Proofs.CommitFacts Proofs.LoadFacts.
+   manifest is written.  The commit set (which histories write) is C08_commit_set: exactly the histories that received
+   records or have a child that wrote; that the session holds records for exactly the histories in scope (folder mode:
+   every non-ignored history; -sf: those on the path to the named files) is carried by the lockstep correspondence. *)
+From MHL Require Import Model.Commands Proofs.BaseFacts Proofs.RouteFacts Proofs.CommitFacts Proofs.LoadFacts Proofs.CommitSetFacts Proofs.TreeFacts.
 
 Theorem C08_deepest_history : forall hs root_h p, good p root_h ->
   good p (route hs root_h p) /\ (route hs root_h p = root_h \/ In (route hs root_h p) hs) /\
@@ -54,6 +55,28 @@ Theorem C08_writes_in_load_order : forall C cdig ser proc sess sp l cs0,
              Forall2 (fun h w => forall op, In op w -> snd op = lh_root h) l ws.
 Proof. exact commit_ops_grouped. Qed.
 Print Assumptions C08_writes_in_load_order.
+
+(* THE COMMIT SET: after a run that did not abort, a history has written a new generation EXACTLY when the session held
+   records for it or one of its child histories has written one (so, by descending, exactly the histories that
+   received records or have a descendant that did) -- for the list of histories `load` returns on any well-formed tree:
+   distinct histories have distinct roots (load_roots_NoDup) and children come before parents (C08_load_children_first).
+   Nothing is written for a folder that is not the root of a loaded history. *)
+Theorem C08_commit_set : forall C cdig ser proc sess sp t t0 hs,
+  wf_tree C t -> load C cdig t = inl hs ->
+  let cs := commit C cdig ser hs proc t0 sess sp in
+  cs_abort C cs = false ->
+  (forall r, wrote C cs r -> In r (map lh_root hs)) /\
+  (forall h, In h hs -> (wrote C cs (lh_root h) <->
+     sess_get sess (lh_root h) <> None \/ exists c, In c hs /\ lh_parent c = Some (lh_root h) /\ wrote C cs (lh_root c))).
+Proof.
+  intros C cdig ser proc sess sp t t0 hs Hw Hl. apply commit_set.
+  - eapply load_roots_NoDup; eauto.
+  - intros l1 h l2 E. eapply load_children_first; eauto.
+Qed.
+Print Assumptions C08_commit_set.
+Theorem C08_distinct_roots : forall C cdig t hs, wf_tree C t -> load C cdig t = inl hs -> NoDup (map lh_root hs).
+Proof. exact load_roots_NoDup. Qed.
+Print Assumptions C08_distinct_roots.
 
 (* non-vacuity: routing between "A" and "AB" *)
 Definition hA := mkLhist [[65%N]] (Some []) [] [] true.
